@@ -8,6 +8,7 @@ import (
 	"encoding/json"
 	"fmt"
 	"math"
+	"strings"
 	"sync"
 
 	"github.com/jrhy/mast"
@@ -24,6 +25,7 @@ type UKey struct {
 }
 
 func (k UKey) Layer(bf uint) uint8 { return k.L }
+
 // Order returns the difference of the IDs (negative / zero / positive, like the
 // repository's own test key type), not just -1/0/1: code that tests for == -1
 // instead of < 0 must not get away with it. IDs are small, no overflow.
@@ -170,9 +172,14 @@ var (
 
 const blobCandidates = 120000
 
+var longPrefix = "a-rather-long-common-prefix/" + strings.Repeat("0123456789abcdef", 10) + "/"
+
 func blobCandidate(kind string, i int) []byte {
 	switch kind {
 	case "string", "bytes":
+		if i%37 == 11 { // long keys sharing a long prefix (longer than any small fixed buffer)
+			return []byte(longPrefix + fmt.Sprintf("%d", i))
+		}
 		return []byte(fmt.Sprintf("k%d", i))
 	default: // skey: the marshaled struct
 		return Enc(SKey{A: fmt.Sprintf("s%d", i%977), B: i})
@@ -386,20 +393,23 @@ type ValKind struct {
 	Zero       interface{}
 	Comparable bool
 	Gen        func(r *fw.Rng) interface{}
+	Single     bool // the kind has one value only (nil: set-like trees)
 }
 
 var (
-	VInt    = &ValKind{"int", int(0), true, func(r *fw.Rng) interface{} { return r.Range(-50, 50) }}
-	VString = &ValKind{"string", "", true, func(r *fw.Rng) interface{} { return fmt.Sprintf("v%d", r.Intn(40)) }}
-	VStruct = &ValKind{"struct", VS{}, true, func(r *fw.Rng) interface{} { return VS{r.Intn(9), fmt.Sprintf("b%d", r.Intn(5))} }}
-	VBytes  = &ValKind{"bytes", []byte(nil), false, func(r *fw.Rng) interface{} {
+	VInt    = &ValKind{Name: "int", Zero: int(0), Comparable: true, Gen: func(r *fw.Rng) interface{} { return r.Range(-50, 50) }}
+	VString = &ValKind{Name: "string", Zero: "", Comparable: true, Gen: func(r *fw.Rng) interface{} { return fmt.Sprintf("v%d", r.Intn(40)) }}
+	VStruct = &ValKind{Name: "struct", Zero: VS{}, Comparable: true, Gen: func(r *fw.Rng) interface{} { return VS{r.Intn(9), fmt.Sprintf("b%d", r.Intn(5))} }}
+	// VNil: set-like trees (ValuesLike nil, every value nil; needs UnmarshalerUsesRegisteredTypes)
+	VNil   = &ValKind{Name: "nil", Zero: nil, Comparable: true, Single: true, Gen: func(r *fw.Rng) interface{} { return nil }}
+	VBytes = &ValKind{Name: "bytes", Zero: []byte(nil), Gen: func(r *fw.Rng) interface{} {
 		b := make([]byte, r.Range(1, 6))
 		for i := range b {
 			b[i] = byte(r.Intn(256))
 		}
 		return b
 	}}
-	VSlice = &ValKind{"slicestruct", VU{}, false, func(r *fw.Rng) interface{} {
+	VSlice = &ValKind{Name: "slicestruct", Zero: VU{}, Gen: func(r *fw.Rng) interface{} {
 		t := make([]string, r.Range(1, 3))
 		for i := range t {
 			t[i] = fmt.Sprintf("t%d", r.Intn(6))
@@ -408,4 +418,4 @@ var (
 	}}
 )
 
-var AllValKinds = []*ValKind{VInt, VString, VStruct, VBytes, VSlice}
+var AllValKinds = []*ValKind{VInt, VString, VStruct, VBytes, VSlice, VNil}
